@@ -14,6 +14,18 @@ CHECKS = {
          'FIFO/wildcard/len/forget defect reachable within the bound is found.',
          'trusts the reference model in mc/checks/c19.py; canonical form reads _dict/_queue only for deduplication (falls back to '
          'history-as-state); callers respect get()\'s precondition', '4/C19'),
+ 'C01': ('exploration', 'exhaustive enumeration of device outputs x all WRTE partitions x APIs x decode x twins (stateless DFS over choice points)',
+         'Every output string of <=2 (thorough 3) atoms of a UTF-8-hostile alphabet is split in ALL 2^(n-1) ways into WRTE payloads and run through '
+         'shell/exec_out/streaming_shell/root, decode on/off, sync and async, CLSE eager or after the last ack, plus read-fragment deviations, '
+         'maxdata-boundary payloads and a second live stream under every device wire order; the result is compared with the device-side payload record. '
+         'Exhaustive within the alphabet and length bound.',
+         'trusts adbsim (mc/adbsim.py) as adbd model; outputs outside the atom alphabet / longer than the bound are not explored', '4/C01'),
+ 'C03': ('exploration', 'deviation-bounded stateless DFS over per-bulk_read fragmentation choices + exhaustive single-bit corruption / bad-command enumeration',
+         'All placements of <=2 (thorough 3) read-fragment deviations {1 byte, n-1, half, empty} over every bulk_read of a six-operation session through both '
+         'twins, six global fragmentation policies, every single-bit flip of every inbound payload byte and of data_check, and ~250 unknown command words at '
+         'every inbound packet; oracle: results and host packet log identical to the unfragmented run, no request past the current packet, '
+         'InvalidChecksumError / InvalidCommandError from the call that read the bad packet.',
+         'trusts adbsim and its frame boundaries; virtual clock frozen so only fragmentation varies', '4/C03'),
 }
 NOT_YET = 'check not built yet in this round (planned, see DESIGN.md section 4); not claimed until it runs'
 
